@@ -94,7 +94,7 @@ class EvalHarness:
             "asyncio": PyModule("asyncio", {"iscoroutinefunction": lambda i, f: False, "iscoroutine": lambda i, f: False,
                                             "isfuture": lambda i, f: False, "CancelledError": EXC["CancelledError"],
                                             "sleep": lambda i, *a, **k: Coro(lambda: None, "asyncio.sleep")}),
-            "inspect": PyModule("inspect", {"isclass": lambda i, f: False}),
+            "inspect": PyModule("inspect", {"isclass": lambda i, f: False, "iscoroutine": lambda i, f: False}),
             "time": PyModule("time", {"sleep": self.sleep_sentinel}),
             "builtins": Rec(fields={}, name="builtins"), "Function": Rec(fields={"get": lambda i, n: None}, name="Function"),
             "State": Rec(name="State"), "logging": PyModule("logging", {"getLogger": lambda i, n: logger_stub(), "DEBUG": 10}),
